@@ -300,6 +300,8 @@ def register(lib):
             # is an obligation generated on demand
             c = cur()
             j = c.fresh_int('fbj')
+            c.assume_raw(z3.And(j >= 0, j < 4))
+            c.nonneg_ids.add(j.get_id())
             tj = buf.tok(mk_int(zint(k) * 4 + j))
             c.require(mk_bool(z3.Implies(z3.And(j >= 0, j < 4),
                                          z3.And(tj.zk() == t.zk(), tj.zo() == t.zo() + j))),
@@ -363,6 +365,8 @@ def register(lib):
             t0 = buf.tok(base)
             cx = cur()
             j = cx.fresh_int('uj')
+            cx.assume_raw(z3.And(j >= 0, j < zint(ub)))
+            cx.nonneg_ids.add(j.get_id())
             tj = buf.tok(mk_int(zint(base) + j))
             # each unit must be ub consecutive bytes of one origin (file range or zero bytes)
             contiguous = z3.Or(z3.And(tj.zk() == t0.zk(), tj.zo() == t0.zo() + j,
